@@ -227,9 +227,6 @@ func checkC14TL2(c tl2Case) pbt.Result {
 	}
 	out, err := goBuild(mod, "g")
 	if err != nil {
-		if pbt.Known("F43") && !pbt.Replaying() && (strings.Contains(out, "has no field or method WriteTL1Boxed") || strings.Contains(out, "has no field or method ReadTL1Boxed")) {
-			return pbt.Result{Excluded: "F43"}
-		}
 		if pbt.Known("F44") && !pbt.Replaying() && strings.Contains(out, "case-insensitive import collision") {
 			return pbt.Result{Excluded: "F44"}
 		}
